@@ -413,6 +413,29 @@ def run_errors(res, name):
             res.note(f"time-limit:{type(exc).__name__}")
             if type(exc).__name__ != "NoSolutionFoundError":
                 res.violation(check, f"time-limit-raised:{type(exc).__name__}", instance=name, limit=limit, error=repr(exc)[:200])
+    # a solve that failed (time limit) must not influence the next one on the
+    # same solver object
+    small = [impl.mk_instance(sp) for sp in POOL[:4]]
+    for k, sinst in enumerate(small):
+        solver = ORToolsSolver(max_time_in_seconds=1e-9)
+        failed = False
+        try:
+            solver.solve(inst)
+        except Exception as exc:  # noqa: BLE001
+            failed = type(exc).__name__ == "NoSolutionFoundError"
+        solver.max_time_in_seconds = None
+        res.add("evaluations")
+        res.add("nontrivial")
+        res.add("transitions", 2)
+        try:
+            S = solver.solve(sinst)
+            fresh = ORToolsSolver().solve(sinst)
+            ref = Ref(POOL[k])
+            errs = feasibility_errors(ref, impl.snap_schedule(S))
+            if errs or not S.is_complete() or S.makespan() != fresh.makespan() or S.metadata.get("status") != fresh.metadata.get("status"):
+                res.violation(check, "result-after-a-failed-solve-differs-from-fresh-solver", instance=POOL[k], earlier_solve_failed=failed, errors=errs[:3], makespan=S.makespan(), fresh_makespan=fresh.makespan())
+        except Exception as exc:  # noqa: BLE001
+            res.violation(check, f"solve-after-a-failed-solve-raised:{type(exc).__name__}", instance=POOL[k], earlier_solve_failed=failed, error=repr(exc)[:200])
     res.sample({"instance": name, "time_limits": [1e-9, 1e-4]})
 
 
